@@ -237,4 +237,43 @@ Proof.
 Qed.
 Lemma J_verdict s m : J s m -> leftover_or_ok m.
 Proof. intros HJ. inversion HJ; subst; [left; assumption|assumption]. Qed.
+
+(* ---- termination: the op list is finite (two requests per op at most) ---- *)
+Notation muS := (RevBridge3.muS L).
+Lemma muS_nonneg sch m : J sch m -> 0 <= muS sch.
+Proof. intros HJ. inversion HJ; subst; unfold RevBridge3.muS, rsched; cbn [ob RevBridge3.rstate RevBridge3.rdone finished idx pend]; lia. Qed.
+Lemma muS_dec sch m : J sch m -> is_exhausted sch = false -> muS (fst (Sched.next sch)) < muS sch.
+Proof.
+  intros HJ He. inversion HJ as [i c p x d stt m0 Hi Hm HRx HNN HNd HWD HAg Hcl HFut|i c stt m0 Hm Htot]; subst; [|cbn in He; discriminate].
+  unfold Sched.next, rsched. cbn [ob]. unfold RevConv.next. cbn [RevBridge3.rstate finished pend ops idx].
+  destruct p as [|a rest].
+  - change {| ops := L; idx := i; cs := c; pend := []; exhausted := false; finished := false |} with (rstate i c []).
+    destruct HFut as (acts & cf & xf & Hconv & Hexs & HT & Hsn & _). cbn [AgP] in HAg.
+    pose proof (RevBridge3.advance_spec N L (fun c => agree c x) (fun i0 c0 c1 HP E => conv1_agree N R L i0 c0 c1 [] x E HP HWD)
+                  (S (length L - i)) i c acts cf ltac:(lia) Hi HAg Hconv) as Hadv.
+    destruct acts as [|a tl].
+    + destruct Hadv as [_ Hadv]. rewrite Hadv, Hsn. cbn [length Nat.eqb negb fst]. unfold RevBridge3.muS. cbn [ob RevBridge3.rdone RevBridge3.rstate finished idx pend length]. lia.
+    + destruct Hadv as (i' & c0 & c' & rest & acts' & Hadv & [Hii' Hi'] & _ & _ & _ & Hc1). rewrite Hadv. cbn [fst].
+      pose proof (RevBridge3.conv1_len N L _ _ _ _ Hc1) as Hl. cbn [length] in Hl.
+      unfold RevBridge3.muS. cbn [ob RevBridge3.rstate finished idx pend length]. lia.
+  - cbn [fst]. unfold RevBridge3.muS. cbn [ob RevBridge3.rstate finished idx pend length]. lia.
+Qed.
+Lemma exh_stays sch m : J sch m -> is_exhausted sch = true -> is_exhausted (fst (Sched.next sch)) = true.
+Proof.
+  intros HJ He. inversion HJ as [i c p x d stt m0 Hi Hm HRx HNN HNd HWD HAg Hcl HFut|i c stt m0 Hm Htot]; subst; [cbn in He; discriminate|].
+  unfold Sched.next, rsched. cbn [ob]. unfold RevConv.next. cbn [RevBridge3.rdone finished fst ob is_exhausted RevConv.exhausted]. reflexivity.
+Qed.
+Lemma run_nexts2_fin : forall k s m, J s m -> (is_exhausted s = true \/ muS s < Z.of_nat k) ->
+  is_exhausted (fst (fst (run_ops pDp s m (repeat Next k)))) = true.
+Proof.
+  induction k as [|k IH]; intros s m HJ Hk; cbn [repeat run_ops].
+  - destruct Hk as [Hk|Hk]; [exact Hk|]. pose proof (muS_nonneg s m HJ). lia.
+  - pose proof (J_step s m HJ) as Hs. unfold step2 in Hs.
+    assert (Hk' : is_exhausted (fst (Sched.next s)) = true \/ muS (fst (Sched.next s)) < Z.of_nat k).
+    { destruct (is_exhausted s) eqn:Ef; [left; exact (exh_stays s m HJ Ef)|]. destruct Hk as [Hk|Hk]; [discriminate|].
+      right. pose proof (muS_dec s m HJ Ef). lia. }
+    destruct (Sched.next s) as [s' o]. cbn [fst] in Hk'. destruct o as [a| |e]; [| |contradiction].
+    + specialize (IH s' _ Hs Hk'). destruct (run_ops pDp s' _ (repeat Next k)) as [[s2 m2] ls]. exact IH.
+    + specialize (IH s' m Hs Hk'). destruct (run_ops pDp s' m (repeat Next k)) as [[s2 m2] ls]. exact IH.
+Qed.
 End RUN.
